@@ -35,6 +35,7 @@ deriving DecidableEq, Repr, Inhabited
 
 inductive Cls where
   | ok | err | cerr | panic | dead
+  | timeout | skipped    -- the harness's call budget ran out: nothing is demanded from there on
 deriving DecidableEq, Repr, Inhabited
 
 structure Obs where
@@ -76,6 +77,8 @@ def emptyIsNil (init : Depths) (what : String) (o : Obs) : List String :=
            ++ restAfterSuccess init what o
   | .dead => [s!"{what}: the interpreter did not survive, empty input cannot be evaluated"]
   | .panic => [s!"{what}: empty input panicked"]
+  | .timeout => []
+  | .skipped => []
   | _ => [s!"{what}: empty input did not return nil"]
 
 def judgeText (init : Depths) (tag : String) (i : Nat) (t : TextObs) : List String :=
